@@ -172,6 +172,10 @@ def add_query_argument(url, name, value=None, quote=True):
 
 
 def unsplit_netloc(username, password, hostname, port):
+    # NOTE: an authority can come without a host ("http://:8080/path")
+    if hostname is None:
+        hostname = ""
+
     if password:
         auth = (username or "") + ":" + password
     elif username:
